@@ -2,7 +2,7 @@
    Known finding K1 (KNOWN_FINDINGS.txt): the decoder keeps only the LAST subscription identifier of a
    PUBLISH (pub_subid = plast 11), so a PUBLISH carrying two or more identifiers reaches one stream
    only; the theorems below are about the identifier the context dispatches on. *)
-From Poster Require Import Model.Client Proofs.ClientP Proofs.HandshakeP Proofs.StreamP.
+From Poster Require Import Model.Sim Proofs.ClientP Proofs.HandshakeP Proofs.StreamP Proofs.QuotaP Proofs.ResumeP Proofs.SimInvP Proofs.SettleP Proofs.RefineP Proofs.OwnP Proofs.TraceP.
 
 (* dispatch: the packet value itself (topic, payload, QoS, flags, properties untouched) is appended
    to the buffer of the stream registered under the identifier; no other stream changes; the
@@ -71,3 +71,28 @@ Proof.
   cbv zeta. split; [repeat split|]. split; [|vm_compute; reflexivity].
   intros a b Hin Hb. cbn in Hin. destruct Hin as [H|[H|[]]]; inversion H; subst; [reflexivity|discriminate].
 Qed.
+
+(* ---- with requests of other operations in between, and for a whole poll of the Context task ---------------------------------
+   C07_history over mixed histories: requests (of operations other than the subscribe that owns the stream) interleaved
+   with the inbound packets in any way change nothing; pkts = the inbound packets of the history. *)
+Theorem C07_history_mixed : forall (evs : list qev) (s : sys) (sid j : N) (st : strm),
+  stream_state s sid j st -> sub_inj s sid j -> wbudget s = None ->
+  (forall m, In m (msgs evs) -> fst (msg_op m) <> j) ->
+  let s' := run_q s evs in
+  stream_state s' sid j (mkst (st_buf st ++ spec_deliveries (await_rel (c s)) sid (pkts evs)) (st_sender st) true (st_taken st)) /\
+  await_rel (c s') = fold_left spec_aw_step (pkts evs) (await_rel (c s)).
+Proof. exact stream_history_mixed. Qed.
+Print Assumptions C07_history_mixed.
+
+(* one poll of the Context task of the script layer, from any running state: the stream has grown by exactly the
+   messages among the packets the framing layer yielded (TraceP.trace; C08_end_to_end ties them to the bytes) that carry
+   its identifier and are not QoS 2 re-deliveries - in order, each once *)
+Theorem C07_after_poll : forall (s : sys) (sid j : N) (st : strm),
+  cph s = CRunning -> hold s = false -> ctx_alive s = true -> wbudget s = None ->
+  stream_state s sid j st -> sub_inj s sid j -> (forall m, In m (msgq s) -> fst (msg_op m) <> j) ->
+  let evs := trace (settle_fuel s) s in
+  stream_state (settle s) sid j
+    (mkst (st_buf st ++ spec_deliveries (await_rel (c s)) sid (pkts evs)) (st_sender st) true (st_taken st)) /\
+  await_rel (c (settle s)) = fold_left spec_aw_step (pkts evs) (await_rel (c s)).
+Proof. exact stream_after_poll. Qed.
+Print Assumptions C07_after_poll.
